@@ -114,6 +114,33 @@ def int_decode(payload: bytes, k: int, n: int, stale: bool) -> bool:
     return fin(pos == len(data) and obj.value == want)
 
 
+def int_long_arrays(first: int, last: int, payload: bytes, k: int, nsel: int, stale: bool) -> bool:
+    """
+    pre: 0 <= k < 8 and 0 <= nsel <= 3
+    pre: len(payload) == 16
+    post: _
+    """
+    # arrays across the 255/256 element boundary (2-byte item length, any per-length fast path): first and last element symbolic,
+    # the elements in between concrete; encode against the reference, decode the reference layout with symbolic first/last element
+    cls = pick(_INTS, k)
+    n = pick([255, 256, 257, 300], nsel)
+    lo, hi = refe5.int_range(cls.format_code)
+    w = refe5.INT_WIDTH[cls.format_code]
+    mid = [(7 * i) % 100 for i in range(n - 2)]
+    if lo <= first <= hi and lo <= last <= hi:
+        vals = [first] + mid + [last]
+        obj = cls(vals)
+        if list(obj.encode()) != refe5.encode_ints(cls.format_code, vals) or obj.get() != vals:
+            return False
+    midb = bytes(b for v in mid for b in refe5.int_bytes(cls.format_code, v))
+    b0, b1 = payload[:w], payload[8:8 + w]
+    data = bytes(refe5.header(cls.format_code, n * w)) + b0 + midb + b1
+    tgt = cls([1, 2]) if stale else cls()
+    pos = tgt.decode(data)
+    want = [refe5.int_value(cls.format_code, list(b0))] + mid + [refe5.int_value(cls.format_code, list(b1))]
+    return fin(pos == len(data) and tgt.value == want)
+
+
 def _text_prefix(n0):
     return "x" * n0
 
@@ -360,6 +387,13 @@ OBLIGATIONS = [
          bounds="U1..U4, I1..I4: list of 0..3 (thorough 0..4) unbounded symbolic ints; U8/I8: 0..2 (3 x 64-bit div/mod chains exceed the solver "
                 "timeout); in range: bytes == reference and get() returns the value; out of range: ValueError",
          outside="lists longer than 3 (2 for 8-byte widths) elements"),
+    dict(name="int_long_arrays", fn="int_long_arrays", timeout=600,
+         parts={"quick": ["k == %d and nsel == 1" % i for i in range(8)],
+                "thorough": ["k == %d and nsel == %d" % (i, j) for i in range(8) for j in range(4)]},
+         functions=["BaseNumber.set/_set_list/encode/decode/get for arrays of 255..300 elements", "Base.encode_item_header/decode_item_header (2 length bytes)"],
+         bounds="U1..U8, I1..I8; arrays of 256 (thorough 255, 256, 257, 300) elements, first and last element symbolic over the full width "
+                "(encode) / as symbolic bytes (decode), elements in between concrete",
+         outside="more than two symbolic elements in a long array; other lengths"),
     dict(name="int_scalar", fn="int_scalar", timeout=120,
          functions=["BaseNumber.set scalar branch", "encode", "get"],
          bounds="U1..U8, I1..I8; one unbounded symbolic int"),
